@@ -3,6 +3,7 @@ package checks
 import (
 	"fmt"
 	"os"
+	"runtime/debug"
 )
 
 // Workers run bounded-exhaustive cases in sub-processes so that fatal runtime errors and hangs are
@@ -10,6 +11,7 @@ import (
 var workers = map[string]func(args []string) int{}
 
 func RunWorker(args []string) int {
+	debug.SetMaxStack(64 << 20) // a runaway recursion dies quickly instead of eating 1 GB first
 	if len(args) == 0 {
 		return 2
 	}
